@@ -438,6 +438,18 @@ func foldRules(c *Ctx) {
 		if !ok || !isNilConst(ret.Results[0]) {
 			return
 		}
+		// a nil operand (left by an earlier, already recorded error) is not a folding decision
+		nilOperand := false
+		for _, ec := range controlling(ret.Block()) {
+			if bo, ok := ec.Cond.(*ssa.BinOp); ok && isNilConst(bo.Y) && bo.Op == token.EQL && ec.Pol {
+				if _, isP := bo.X.(*ssa.Parameter); isP {
+					nilOperand = true
+				}
+			}
+		}
+		if nilOperand {
+			return
+		}
 		m++
 		okOp, okZero := false, false
 		for _, ec := range controlling(ret.Block()) {
